@@ -3,5 +3,5 @@
 f=$1; e=$2; shift 2
 cd /repo && sed -i "$e" "$f" && git diff --stat | tail -1
 if git diff --quiet; then echo "MUTATION DID NOT APPLY"; exit 3; fi
-for c in "$@"; do (cd /verif && VERIF_EVIDENCE_DIR=/tmp/verif_mutant_evidence ./check $c 2>&1 | grep -E "VIOLATION|KNOWN|^\[|HARNESS" | head -6); done
+for c in "$@"; do (cd /verif && VERIF_EVIDENCE_DIR=/tmp/verif_mutant_evidence ./check $c 2>&1 | grep -E "VIOLATION|KNOWN|^\[|HARNESS" | head -12); done
 git -C /repo checkout -- . 
